@@ -239,11 +239,6 @@ func c03RandomCase(ctx *core.Ctx, i int) (*Case, bool) {
 	c.Shape = gen.Shape{Schemas: 1 + r.Intn(3), Channels: 1 + r.Intn(6), Messages: 20 + r.Intn(400), MaxPayload: 30, MaxLongStr: 20, ManyMapKeys: 2,
 		TimeMode: []string{"ties", "smallrand", "rand", "boundary", "desc", "asc", "zerofirst"}[r.Intn(7)], Rewrites: r.Intn(3) == 0}
 	c.W = gen.RandWorkload(r, c.Shape)
-	for _, m := range c.W.Messages() {
-		if m.LogTime == math.MaxUint64 {
-			m.LogTime = math.MaxUint64 - 1 - uint64(r.Intn(2)) // 2^64-1 itself is C01/C04's recorded finding
-		}
-	}
 	useRef := i%2 == 1
 	c.K = gen.Config{Chunked: true, ChunkSize: []int64{1, 50, 200, 1024, 4096}[r.Intn(5)], Compression: []string{"", "", "zstd", "lz4"}[r.Intn(4)], IncludeCRC: r.Intn(2) == 0,
 		SkipMessageIndexing: r.Intn(3) == 0, SkipStatistics: r.Intn(3) == 0, SkipSummaryOffsets: r.Intn(3) == 0}
@@ -350,9 +345,9 @@ func checkC03Random(ctx *core.Ctx, i int, rep *core.Report) {
 func RunC03(ctx *core.Ctx, rep *core.Report) {
 	rep.Rule = "small scope, exhaustive: every file of 1..3 chunks x 0..3 messages per chunk with log times from {0,1,2,3} on 2 channels, produced by the reference encoder (ids 0..84 one chunk, 85..7309 two, 7310..621434 three; message-less chunks alternate between 'schema/channel records only' and 'no record'). " +
 		"quick: the complete 1-2-chunk space plus a seeded 20000-file sample of the 3-chunk space; thorough: all 621435 files, every 8th also under all 15 windows x 3 topic selections. " +
-		"Plus random large files (Go writer with tiny chunk sizes / reference encoder with random partitions): tens to hundreds of chunks, heavy ties, log times at 0 and up to 2^64-2. " +
+		"Plus random large files (Go writer with tiny chunk sizes / reference encoder with random partitions): tens to hundreds of chunks, heavy ties, log times at 0 and up to 2^64-1. " +
 		"Oracle per read: exactly-once as multiset, monotone log time, same-chunk ties in (reverse) file order, second read identical. distinct_nontrivial counts distinct files read."
-	rep.Assumptions = []string{"chunk membership and in-chunk order come from the reference encoder/decoder", "ties across chunks are unconstrained, as in the property", "log time 2^64-1 itself is excluded here (recorded finding of C01/C04)"}
+	rep.Assumptions = []string{"chunk membership and in-chunk order come from the reference encoder/decoder", "ties across chunks are unconstrained, as in the property", "windows of the random files are taken from message times, so an upper bound of 2^64-1 excludes messages at that time as the half-open window requires"}
 	total := arrangements + arrangements*arrangements + arrangements*arrangements*arrangements
 	two := arrangements + arrangements*arrangements
 	var ids []int
